@@ -11,6 +11,7 @@ assert len(sel) == len(buckets), "bucket not found: %s" % (set(buckets) - {f["bu
 diffs = []
 for f in sel:
     d = f.get("proposed_fix", "")
+    d = d[d.index("--- a/"):] if "--- a/" in d else d  # drop prose before the diff
     if d not in diffs:
         diffs.append(d)
 if subprocess.run(["git", "-C", "/repo", "status", "--porcelain"], capture_output=True, text=True).stdout.strip():
